@@ -100,6 +100,7 @@ func main() {
 		var r struct {
 			Property, Signature, Stage, Tier string
 			Idx, Seed                        uint64
+			Prelude                          []fw.CaseRef
 		}
 		if err := json.Unmarshal(b, &r); err != nil {
 			fmt.Fprintln(os.Stderr, err)
@@ -110,7 +111,7 @@ func main() {
 			os.Exit(3)
 		}
 		tier, _ := fw.ParseTier(r.Tier)
-		res := fw.ReplayCase(r.Property, tier, r.Seed, r.Stage, r.Idx, r.Signature)
+		res := fw.ReplayCase(r.Property, tier, r.Seed, r.Stage, r.Idx, r.Signature, r.Prelude...)
 		os.Exit(res)
 	default:
 		fmt.Fprintln(os.Stderr, "unknown command", os.Args[1])
